@@ -20,6 +20,7 @@ Proof. simpl. rewrite app_nil_r. reflexivity. Qed.
 Lemma construct_not_base n e : construct n = Fail e -> base_only e = false.
 Proof.
   unfold construct. intros H.
+  destruct (first_dup (pr_params (n_proc n))); [injection H as <-; reflexivity|].
   destruct (pr_kind (n_proc n)), (n_ckey n); try (injection H as <-; reflexivity);
   destruct (pr_dynamic (n_proc n)); try discriminate;
   destruct (filter _ _); try discriminate; injection H as <-; reflexivity.
